@@ -357,7 +357,7 @@ def gen_arrays(ctx):
             ndim = ndim0 if same else int(rng.integers(1, 4))
             shapes.append([int(rng.integers(0 if rng.random() < 0.1 else 1, 6)) for _ in range(ndim)])
         mind = min(len(sh) for sh in shapes)
-        axis = int(rng.integers(-mind, mind)) if same else int(rng.integers(0, mind))
+        axis = int(rng.integers(0, mind))   # negative axes are always rejected by slice_along_axis
         yield 'split', {'struct': rand_struct(rng, nl), 'shapes': shapes, 'axis': axis, 'same': same,
                         'idx': int(rng.integers(-8, 9))}
     for i in range(n):
@@ -523,13 +523,141 @@ def r_concat(ctx, a):
         # splitting the result at the recorded sizes gives the parts back
         n0 = [x.shape[axis] for x in jax.tree_util.tree_leaves(trees[0])]
         if len(set(n0)) == 1:
-            f, s2 = pu.split_along_axis(out, n0[0], axis if axis >= 0 else axis, expect_same_dims=True)
+            nd = np.asarray(jax.tree_util.tree_leaves(out)[0]).ndim
+            f, s2 = pu.split_along_axis(out, n0[0], axis if axis >= 0 else axis + nd, expect_same_dims=True)
             ctx.oracle('split_along_axis(concat_along_axis(ts), n0)[0] == ts[0]', same_tree(jax, f, trees[0]), {'trees': a['trees']})
+
+
+# ---------------------------------------------------------------------------
+# spectral down-/up-sampling
+# ---------------------------------------------------------------------------
+_sp = None
+def SP():
+    global _sp
+    if _sp is None:
+        J()
+        import functools
+        from dinosaur import spherical_harmonic as sh, coordinate_systems as cs, sigma_coordinates as sc
+        impls = {'real': sh.RealSphericalHarmonics, 'fast': sh.FastSphericalHarmonics,
+                 'fast4': functools.partial(sh.FastSphericalHarmonics, base_shape_multiple=4)}
+        _sp = (sh, cs, sc, impls)
+    return _sp
+
+def gen_spectral(ctx):
+    rng = ctx.rng
+    quick = ctx.tier == 'quick'
+    pairs = [(3, 4, 5, 6), (4, 5, 4, 5), (2, 3, 6, 7), (5, 6, 3, 4), (3, 4, 5, 4), (3, 5, 4, 8), (4, 6, 3, 7), (1, 2, 2, 3)]
+    if not quick:
+        pairs += [(int(a), int(a + rng.integers(0, 3)), int(b), int(b + rng.integers(0, 3)))
+                  for a, b in rng.integers(1, 9, size=(24, 2))]
+    for j, (mc, lc, mf, lf) in enumerate(pairs):
+        for impl in (['real', 'fast'] if quick and j % 2 else ['real', 'fast', 'fast4']):
+            yield 'spectral', {'Mc': mc, 'Lc': lc, 'Mf': mf, 'Lf': lf, 'impl': impl, 'K': int(rng.integers(1, 4)),
+                               'seed': int(rng.integers(0, 1000))}
+
+
+def _grid(M, L, impl, nodes=None):
+    sh, cs, sc, impls = SP()
+    nl, nt = nodes if nodes else (3 * M + 1, (3 * M + 2) // 2)
+    return sh.Grid(longitude_wavenumbers=M, total_wavenumbers=L, longitude_nodes=nl, latitude_nodes=nt,
+                   spherical_harmonics_impl=impls[impl])
+
+
+def _enc2(x):
+    x = np.asarray(x)
+    return [1.0, float(x.shape[0]), float(x.shape[1])] + [float(v) for v in x.ravel()]
+
+
+def r_spectral(ctx, a):
+    jax, jnp, pu = J()
+    sh, cs, sc, impls = SP()
+    mc, lc, mf, lf, impl, K = a['Mc'], a['Lc'], a['Mf'], a['Lf'], a['impl'], a['K']
+    vert = sc.SigmaCoordinates.equidistant(K)
+    gc, gf = _grid(mc, lc, impl), _grid(mf, lf, impl)
+    csc, csf = cs.CoordinateSystem(gc, vert), cs.CoordinateSystem(gf, vert)
+    sc_, sf_ = gc.modal_shape, gf.modal_shape
+    rng = np.random.Generator(np.random.PCG64(a['seed']))
+    def data(shape): return rng.integers(-20, 21, size=shape).astype(np.float64) / 4
+    ctx.count('spectral:impl=' + impl)
+    hdr = lambda which, src, dst, ssh, dsh: [which, src.longitude_wavenumbers, src.total_wavenumbers, ssh[0], ssh[1],
+                                             dst.longitude_wavenumbers, dst.total_wavenumbers, dsh[0], dsh[1]]
+    def run(getter, which, src_cs, dst_cs, state, name):
+        src, dst = src_cs.horizontal, dst_cs.horizontal
+        try:
+            out = getter(src_cs, dst_cs)(state)
+        except ValueError:
+            out = None
+        ctx.count('%s:%s' % (name, 'ok' if out is not None else 'raises'))
+        for path in (('x',), ('tr', 'q')):
+            xin = state[path[0]] if len(path) == 1 else state[path[0]][path[1]]
+            xo = None if out is None else (out[path[0]] if len(path) == 1 else out[path[0]][path[1]])
+            xin2 = np.asarray(xin).reshape((-1,) + np.asarray(xin).shape[-2:])
+            for k in range(xin2.shape[0]):
+                m = ctx.model.call(20, hdr(which, src, dst, src.modal_shape, dst.modal_shape), [xin2[k].ravel()])
+                if xo is None:
+                    ctx.exact(name, [0.0], flo(m))
+                else:
+                    xo2 = np.asarray(xo).reshape((-1,) + np.asarray(xo).shape[-2:])
+                    ctx.exact(name, _enc2(xo2[k]), flo(m))
+        if out is not None:
+            ctx.oracle('resampling leaves scalars and the tree structure alone',
+                       float(out['s']) == float(state['s']) and set(out) == set(state) and set(out['tr']) == set(state['tr']))
+        return out
+    state_c = {'x': data((K,) + sc_), 'tr': {'q': data(sc_)}, 's': np.float64(2.5)}
+    state_f = {'x': data((K,) + sf_), 'tr': {'q': data(sf_)}, 's': np.float64(-1.5)}
+    up = run(cs.get_spectral_upsample_fn, 1, csc, csf, state_c, 'upsample')
+    run(cs.get_spectral_downsample_fn, 0, csf, csc, state_f, 'downsample')
+    run(cs.get_spectral_interpolate_fn, 2, csc, csf, state_c, 'interpolate(coarse->fine)')
+    run(cs.get_spectral_interpolate_fn, 2, csf, csc, state_f, 'interpolate(fine->coarse)')
+    if up is None:
+        ctx.oracle('upsampling is rejected only when the target is smaller',
+                   sf_[0] < sc_[0] or sf_[1] < sc_[1], {'coarse': sc_, 'fine': sf_})
+        return
+    # clause: down(up(x)) == x  (bit-identical)
+    try:
+        back = cs.get_spectral_downsample_fn(csf, csc)(up)
+        ctx.oracle('spectral up-sampling followed by down-sampling is the identity', same_tree(jax, back, state_c),
+                   {'coarse': sc_, 'fine': sf_})
+    except ValueError:
+        ctx.oracle('spectral up-sampling followed by down-sampling is the identity',
+                   not (gf.total_wavenumbers >= gc.total_wavenumbers and gf.longitude_wavenumbers >= gc.longitude_wavenumbers),
+                   'downsample raised after an accepted upsample')
+    # clause: coefficient placement
+    ux = np.asarray(up['x'])
+    ok = np.array_equal(ux[..., :sc_[0], :sc_[1]], state_c['x'])
+    rest = ux.copy(); rest[..., :sc_[0], :sc_[1]] = 0
+    ctx.oracle('up-sampling keeps every coefficient at its index and pads exact zeros', ok and not rest.any() and ux.shape[-2:] == tuple(sf_))
+    # table obligation: the same index means the same (m, l) on both grids (inside the coarse mask)
+    mcs, lcs = gc.modal_axes; mfs, lfs = gf.modal_axes
+    mask = np.asarray(gc.mask)
+    if sf_[0] >= sc_[0] and sf_[1] >= sc_[1]:
+        rowsel = mask.any(axis=1); colsel = mask.any(axis=0)
+        ok = (np.array_equal(np.asarray(mfs)[:sc_[0]][rowsel], np.asarray(mcs)[rowsel]) and
+              np.array_equal(np.asarray(lfs)[:sc_[1]][colsel], np.asarray(lcs)[colsel]) and
+              bool(np.asarray(gf.mask)[:sc_[0], :sc_[1]][mask].all()))
+        ctx.table_obligation('H_modal_axes_prefix (index -> (m,l) map of the finer grid extends the coarser one on its mask)', ok,
+                             {'coarse_m': np.asarray(mcs).tolist(), 'fine_m': np.asarray(mfs).tolist()})
+    # same function on a finer spectral grid with the same nodes: basis tables agree, synthesis agrees
+    if impl != 'fast4' and mf >= mc and lf >= lc:
+        nodes = (max(gc.longitude_nodes, 2 * mf + 1), gc.latitude_nodes)
+        gc2, gf2 = _grid(mc, lc, impl, nodes), _grid(mf, lf, impl, nodes)
+        bc, bf = gc2.spherical_harmonics.basis, gf2.spherical_harmonics.basis
+        pc, pf = np.asarray(bc.p), np.asarray(bf.p); fc, ff = np.asarray(bc.f), np.asarray(bf.f)
+        ok = (np.array_equal(pf[:pc.shape[0], :, :pc.shape[2]], pc) and np.array_equal(ff[:, :fc.shape[1]], fc))
+        ctx.table_obligation('H_table_prefix (basis tables of the finer spectral grid restricted to the coarse (m,l) are the coarse tables)',
+                             ok, {'p': [pc.shape, pf.shape], 'f': [fc.shape, ff.shape]})
+        cs2c, cs2f = cs.CoordinateSystem(gc2, vert), cs.CoordinateSystem(gf2, vert)
+        x = state_c['x'] * np.asarray(gc2.mask)
+        upx = cs.get_spectral_upsample_fn(cs2c, cs2f)({'x': x})['x']
+        nc = np.asarray(gc2.to_nodal(jnp.asarray(x))); nf = np.asarray(gf2.to_nodal(upx))
+        scale = float(np.abs(x).sum() * np.abs(pc).max() * np.abs(fc).max()) + 1e-300
+        ctx.oracle_close('up-sampled coefficients synthesise the same function (same nodes)', nf, nc, scale=scale)
 
 def generate(ctx):
     yield from gen_dicts(ctx)
     yield from gen_arrays(ctx)
+    yield from gen_spectral(ctx)
 
 
 RUNNERS = {'dict': r_dict, 'unflatten': r_unflatten, 'replace': r_replace, 'pack': r_pack, 'stack': r_stack,
-           'split': r_split, 'split_axis': r_split_axis, 'concat': r_concat}
+           'split': r_split, 'split_axis': r_split_axis, 'concat': r_concat, 'spectral': r_spectral}
